@@ -25,6 +25,7 @@ func c20Site(stack string) string {
 	lines := strings.Split(stack, "\n")
 	// the innermost frame of the daemon's own package names the call site; frames below it
 	// (a method called on a nil handle) do not
+	var app []string
 	for i, l := range lines {
 		m := c20Frame.FindStringSubmatch(l)
 		if m == nil || m[1] != "app" || strings.HasPrefix(m[2], "(*sim)") || strings.HasPrefix(m[2], "TestVerif") {
@@ -33,7 +34,13 @@ func c20Site(stack string) string {
 		if i+1 < len(lines) && strings.Contains(lines[i+1], "zz_verif_") {
 			continue
 		}
-		return "app." + m[2]
+		app = append(app, strings.TrimPrefix(m[2], "(*App)."))
+		if len(app) == 2 {
+			break
+		}
+	}
+	if len(app) > 0 {
+		return "app." + strings.Join(app, "<-")
 	}
 	for i, l := range lines {
 		m := c20Frame.FindStringSubmatch(l)
@@ -79,7 +86,7 @@ func firstLines(s string, n int) string {
 // TestVerifC20Inputs: no loop body panics, whatever the coordination tree and the servers hold.
 func TestVerifC20Inputs(t *testing.T) {
 	stt := vs.NewStats(t, "C20")
-	stt.Rule = "cluster of 2-3 HA hosts (+0-1 cascade) converged by the real daemons, then 6-30 actions from {loop body (manager iteration / health / recovery check / lag check) of a drawn process, full round} interleaved with coordination-tree edits reachable through the CLI or external tools {unregister an HA host (also the recorded master, also a dead one), register it again, register a host that does not exist, stream_from pointing at an unregistered host / at itself / cascade entry removed, health record deleted or made stale, active_nodes with an unregistered name / empty / removed, recovery mark for an unregistered host, master key set to an unregistered host / to the cascade replica / removed, switch request naming an unregistered host, maintenance on/off} and faults {failing / hanging / cut statement at a drawn position, mysqld crash/start, ZooKeeper down/up, time jump}; oracle: no panic in any loop body (the harness recovers it; the daemon would die); non-trivial = at least one dangling reference or fault was injected"
+	stt.Rule = "cluster of 2-3 HA hosts (+0-1 cascade) converged by the real daemons, then 6-30 actions from {loop body (manager iteration / health / recovery check / lag check) of a drawn process, full round} interleaved with coordination-tree edits reachable through the CLI or external tools {unregister an HA host (also the recorded master, also a dead one), register it again, register a host that does not exist, stream_from pointing at an unregistered host / at itself / cascade entry removed, health record deleted or made stale, active_nodes with an unregistered name / empty / removed, recovery mark or optimisation-registry entry for an unregistered host, master key set to an unregistered host / to the cascade replica / removed, switch request naming an unregistered host, maintenance on/off} and faults {failing / hanging / cut statement at a drawn position, mysqld crash/start, ZooKeeper down/up, time jump}; oracle: no panic in any loop body (the harness recovers it; the daemon would die); non-trivial = at least one dangling reference or fault was injected"
 	stt.Assumptions = simAssumptions
 	stt.Check(t, vs.CheckOpts{Bubble: true}, func(c *vs.Case) {
 		n := c.Src.Int("ha_hosts", 2, 3)
@@ -106,7 +113,7 @@ func TestVerifC20Inputs(t *testing.T) {
 		hostile := false
 		steps := c.Src.Int("steps", 6, 30)
 		for i := 0; i < steps; i++ {
-			act := c.Src.Pick("action", "body", "body", "body", "round", "round", "unregister", "register-again", "register-ghost", "stream-from", "health-record", "active-nodes", "recovery-ghost", "master-key", "switch-ghost", "maintenance", "fault", "crash", "start", "zk-down", "zk-up", "advance")
+			act := c.Src.Pick("action", "body", "body", "body", "round", "round", "unregister", "register-again", "register-ghost", "stream-from", "health-record", "active-nodes", "recovery-ghost", "optimization-ghost", "master-key", "switch-ghost", "maintenance", "fault", "crash", "start", "zk-down", "zk-up", "advance")
 			switch act {
 			case "body":
 				ps := s.alive()
@@ -171,6 +178,12 @@ func TestVerifC20Inputs(t *testing.T) {
 				hostile = true
 			case "recovery-ghost":
 				s.zk.RawSet(simNS+"/"+pathRecovery+"/nowhere", []byte("null"))
+				hostile = true
+			case "optimization-ghost":
+				// an optimisation registry entry for a host that is not (or no longer) registered
+				h := []string{"nowhere", pickHost("optimization.host")}[c.Src.Int("optimization.ghost", 0, 1)]
+				s.zk.RawSet(simNS+"/optimization_nodes", []byte("null"))
+				s.zk.RawSet(simNS+"/optimization_nodes/"+h, []byte(`{"status":"`+c.Src.Pick("optimization.status", "", "enabled")+`"}`))
 				hostile = true
 			case "master-key":
 				switch c.Src.Pick("master.kind", "unregistered", "cascade", "removed", "other") {
